@@ -504,7 +504,13 @@ func (c *census) scanBody(a *apkg, fn string, body ast.Node) {
 				if freshLocal(info, c.fnBody(fn, body), v) {
 					return
 				}
-				record(c.elemTarget(v.Type()), kind)
+				t := c.elemTarget(v.Type())
+				// "a caller's scalar buffer" only for a PARAMETER: a non-fresh local of scalar-slice type is
+				// an alias of something (b := x.field; b[0] = 1) and is reported like any other container
+				if strings.HasPrefix(t, "elem-of-scalars:") && !c.isParam(fn, body, v) {
+					t = "elem-of:" + strings.TrimPrefix(t, "elem-of-scalars:")
+				}
+				record(t, kind)
 			}
 		case *ast.SelectorExpr:
 			written[x] = true
@@ -538,6 +544,14 @@ func (c *census) scanBody(a *apkg, fn string, body ast.Node) {
 			k := "elem"
 			if kind == "delete" || kind == "copy" {
 				k = kind
+			}
+			// s[i][k] = v: the container written to is an ELEMENT of s; s being a fresh local says nothing
+			// about what was stored in it (s[0] = x.sharedMap), so the inner container is reported by type
+			if (kind == "elem" || kind == "delete" || kind == "copy") && isIndexOfIdent(x) {
+				if tt := info.TypeOf(x); tt != nil {
+					record(c.elemTarget(tt), kind)
+					return
+				}
 			}
 			markWrite(x.X, k)
 		case *ast.StarExpr:
@@ -678,6 +692,20 @@ func (c *census) scanBody(a *apkg, fn string, body ast.Node) {
 		}
 		return true
 	})
+}
+
+// isIndexOfIdent: e is v[i] (possibly parenthesised) for an identifier v
+func isIndexOfIdent(e *ast.IndexExpr) bool {
+	b := e.X
+	for {
+		p, ok := b.(*ast.ParenExpr)
+		if !ok {
+			break
+		}
+		b = p.X
+	}
+	_, ok := b.(*ast.Ident)
+	return ok
 }
 
 // ---- where does the object whose field is written come from ------------------------------
